@@ -426,6 +426,39 @@ def proof_stage(rep, prop_id, theorems, allowed_axioms=(), extra_targets=()):
     return not failed
 
 
+def pmap(fn, *iters):
+    """parallel map for python-side oracles that decode frames with the pure-python AES (fn must be a module-level function)"""
+    from concurrent.futures import ProcessPoolExecutor
+    n = len(iters[0])
+    if n < 400:
+        return [fn(*a) for a in zip(*iters)]
+    with ProcessPoolExecutor(max_workers=NCPU) as ex:
+        return list(ex.map(fn, *iters, chunksize=max(16, n // (NCPU * 8))))
+
+
+def input_distribution(cases, outs):
+    """what the generated inputs looked like: operation kinds, history lengths, outcome kinds (so that a degenerate generator shows)"""
+    import collections, re as _re
+    ops, outk, lens = collections.Counter(), collections.Counter(), []
+    for c in cases:
+        parts = [x.strip() for x in c.split("|")]
+        if len(parts) > 1:
+            lens.append(len(parts) - 1)
+            for x in parts[1:]:
+                ops[x.split(" ", 1)[0][:24] if x else "-"] += 1
+        else:
+            ops[c.split(" ", 1)[0][:24]] += 1
+    for o in outs:
+        for x in o.split(" ; "):
+            w = _re.split(r"[\s(\[:=]", x.strip(), 1)[0][:24] if x.strip() else "-"
+            outk[w if not w[:1].isdigit() and not w[:1] == "-" else "<value>"] += 1
+    d = {"op_mix": dict(ops.most_common(14)), "outcome_mix": dict(outk.most_common(14))}
+    if lens:
+        lens.sort()
+        d["history_length"] = {"min": lens[0], "median": lens[len(lens) // 2], "max": lens[-1]}
+    return d
+
+
 def diff_stage(rep, name, cases, judge, expand=None, max_report=5):
     """Correspondence run: model (extracted OCaml) and implementation (Rust harness) on the same
     case lines.  judge(case, impl_out, model_out) -> None if the implementation's behaviour on this
@@ -445,6 +478,7 @@ def diff_stage(rep, name, cases, judge, expand=None, max_report=5):
     st = rep.cov.setdefault("correspondence", {})
     st[name] = {"cases": len(cases), "disagreements": len(dis), "distinct_outputs": len(set(io)),
                 "seconds": round(time.time() - t0, 1)}
+    st[name].update(input_distribution(cases, io))
     rep.cov["traces_validated_against_impl"] = rep.cov.get("traces_validated_against_impl", 0) + len(cases) - len(dis)
     rep.cov["evaluations"] = rep.cov.get("evaluations", 0) + len(cases)
     rep.cov["distinct_nontrivial"] = rep.cov.get("distinct_nontrivial", 0) + len(set(zip(cases, io)))
